@@ -98,6 +98,10 @@ func init() {
 			}
 			m.Stage = "satisfaction-evaluate"
 			o.Corr(m, L(A("satisfaction-evaluate"), dmpLine, ds, lvLine), okSX(resSX(msgEv, func() SX { return satEntriesSX(rk) })))
+			// the same with the model generating the "successively lower aspiration levels" itself
+			m.Stage = "satisfaction-evaluate-full"
+			o.Corr(m, L(A("satisfaction-evaluate-full"), dmpLine, ds), okSX(resSX(msgEv, func() SX { return satEntriesSX(rk) })))
+			heurConsideredOrder(o, m, dm, d)
 			if msgEv != "" || msgL != "" || msgSO != "" {
 				continue
 			}
